@@ -300,9 +300,12 @@ func (parser *Parser) getIncludes(srcFile *SourceFile, includes []*Include, incP
 					loc:        inc.Node.Loc,
 				})
 			} else if iSrcFile := processedIncludes[absPath]; iSrcFile != nil {
-				iSrcFile.IncludedFrom = append(iSrcFile.IncludedFrom, &inc.Node.Loc)
 				if err := srcFile.checkIncludes(absPath, &inc.Node.Loc); err != nil {
+					// Do not record the edge which closes the cycle: the
+					// chain of includers must stay finite to be printed.
 					errs = append(errs, err)
+				} else {
+					iSrcFile.IncludedFrom = append(iSrcFile.IncludedFrom, &inc.Node.Loc)
 				}
 			} else {
 				iSrcFile = &SourceFile{
